@@ -23,4 +23,16 @@ CHECKS = {
         text='Inductive single-step bounded model checking of SelectorMap on the real code: from the canonical trie of every subset of a 7/10-name vocabulary (names that are suffixes of other names included) one arbitrary operation is executed and the result must again be the canonical trie and answer every query like the set-of-names reference (exact-match precedence, unique/ambiguous/unknown, minimal selector resolves back and no shorter suffix does, copies independent). The API half proves, for all integer values, that every unambiguous spelling of a parameter is one key through bind/query/get_bindings/calls.',
         note=X_NOTE + ' The SelectorMap half handles only concrete strings: the solver certifies that the bounded state x operation space was covered completely and decides the stored values; the observation battery runs natively.',
         technique='CrossHair/z3 exhaustive path exploration of SelectorMap operations from symbolic valid pre-states (inductive step) + symbolic-value execution of ParsedBindingKey.parse/bind/query'),
+    'C04': dict(
+        text='Bounded model checking by symbolic execution of the real wrapper/deepcopy/scoping code: every placement of one or two references in nested containers x evaluated or not x reference scope x ambient scope x caller override mode x 1-3 calls x consumer mutation is a path; call counts, observed scopes, freshness (is not) and the value delivered are proved against the reference for all integer source values.',
+        note=X_NOTE + ' Config text is concrete and parsed natively; source values reach the probes through Gin constants so that they stay symbolic.',
+        technique='CrossHair/z3 symbolic execution of gin_wrapper, ConfigurableReference.__deepcopy__, _decorate_with_scope; exhaustive bounded placement space'),
+    'C05': dict(
+        text='Bounded model checking: every order of up to two definitions and two uses of a macro across parse calls, 3 macro names and 4 ways of binding it, with the value proved to be the last one bound for all integers; constants: every order of 3-4 definitions from a 9-name family with shared suffixes x 9 query spellings, identity of the delivered object, ambiguity/duplicate/invalid errors, finalize rejection of unbound and unevaluated macros.',
+        note=X_NOTE,
+        technique='CrossHair/z3 symbolic execution of macro/constant resolution (ParserDelegate.macro, constant, _retrieve_constant, validate_macros_hook) with symbolic macro values'),
+    'C09': dict(
+        text='Bounded model checking of the scope stack on the real code: every nesting of depth 3 (quick) / 4 (thorough) over 10 entry kinds (4 of them invalid), each level left normally or by an exception, with a scoped or unscoped configurable call innermost; current_scope()/current_scope_str() inside and after every block equal the stack-automaton reference.',
+        note=X_NOTE + ' Thread half of C09 (privacy of the stack under interleavings) is not claimed by this check yet.',
+        technique='CrossHair/z3 exhaustive path exploration of config_scope/_ScopeManager over symbolic entry kinds (lazy choice per level)'),
 }
